@@ -9,7 +9,7 @@ line; tracing is removed before it propagates.
 
 import sys
 
-REPO_PREFIX = "/repo/quimb/"
+from .engine import REPO_PREFIX
 
 
 class SimInterrupt(BaseException):
